@@ -2,6 +2,7 @@
 import json, os, random
 from harness import tla
 from harness.checks import treefam as F
+from harness.checks import iterfam as I
 
 FAULTS = ('tuplelen', 'childiter', 'entlen', 'entiter', 'entshort')
 
@@ -11,7 +12,10 @@ def main(run):
     run.rule = ('every TreeGen tree (incl. alphabet F: one malformed custom node per forest, at every position) and seeded random trees '
                 '(one in three with a single injected malformed custom node) go through all eight entry points + tree_is_leaf / all_leaves / '
                 'reductions under rotating options; TLC compares each output with layer D and the outputs with each other; depth cases '
-                'at MAX_RECURSION_DEPTH-2..+2 for 9 node kinds are bound to the model at MaxDepth=4 by offset; non-trivial = internal node')
+                'at MAX_RECURSION_DEPTH-2..+2 for 9 node kinds are bound to the model at MaxDepth=4 by offset; IterM: all programs of 3 (quick) / 4 calls '
+                'creating / stepping iterators while mutating the heap, changing dict-order modes and the registry + simulated and random '
+                'longer ones are replayed and every call judged by IterSem!Step (tree_leaves and clean iterators: law; suspended-and-disturbed '
+                'iterators: model drift only); non-trivial = internal node / program that steps an iterator after a change')
     bounds = [('A', 4, 2, 2), ('B2', 3, 2, 2), ('F', 4, 2, 2)] if quick else [('A', 5, 2, 2), ('B1', 4, 3, 3), ('B2', 4, 2, 2), ('F', 5, 2, 2)]
     rng = random.Random(run.seed)
     trees, _ = F.model_phase(run, bounds, ['InvC03'], faults=FAULTS)
@@ -32,5 +36,13 @@ def main(run):
         run.nontrivial.add(F.tree_key(t))
     run.evaluations += F.drive_and_judge(run, 'c2s', items, ['flatten', 'c03extra'])
     run.evaluations += F.drive_and_judge(run, 'depth', [], ['depth'])
+    # the lazy entry point as a stateful object: programs interleaving __next__ with mutations, mode and registry changes
+    n = 0
+    for fam, ln, cap in (('mut', 3, 6000), ('env', 3, 4000), ('pred', 3, 4000)) if quick else (('mut', 4, 120000), ('env', 4, 120000), ('pred', 4, 120000)):
+        n += I.replay_and_judge(run, f'iter-{fam}', I.exhaustive_programs(run, fam, ln, cap=cap, seed=run.seed))
+    n += I.replay_and_judge(run, 'iter-sim', I.simulated_programs(run, 'all', 150 if quick else 3000, 12, run.seed))
+    n += I.replay_and_judge(run, 'iter-rnd', I.random_programs(2000 if quick else 40000, 40, run.seed + 5))
+    run.evaluations += n
+    run.extra['iterator_programs_replayed'] = n
     run.exhaustive = False
     run.extra['bounds'] = [list(b) for b in bounds]
